@@ -1,5 +1,7 @@
 import PfModel.DriverVal
 import PfModel.Model.MapPieces
+import PfModel.Model.MapPiecesSub
+import PfModel.Model.MapPiecesFlow
 /-! Driver for C06: `pieces.run` (a sequence of `map(fixed_indices=…, cleanup=False)` on one folder), `learners.make`
     (`create_learners`), `learners.exec` (a sequence of `learner.function(x)` calls on the shared store), `sel.indices`
     (the positions an `int | slice` selects on an axis).  The function/MapSpec schema is that of `Driver/C01.lean`. -/
@@ -50,14 +52,15 @@ def putStore (store : List (String × Slot)) : List (String × Json) :=
 def putPart (r : PartResult) : Json :=
   jObj ([("outputs", putKw r.res.outputs), ("calls", jList putCall r.res.calls)] ++ putStore r.store)
 
-/-- the parts in order, stopping at the first refusal -/
-def runPiecesObs (fs : List MFunc) (inputs : List (String × Val)) (ui : List (String × List Nat)) :
+/-- the parts in order, stopping at the first refusal; every part with the same `output_names` / `auto_subpipeline`
+    (`runPartSub`; with neither it is `runPart`, `C06_sub_plain`) -/
+def runPiecesObs (fs : List MFunc) (inputs : List (String × Val)) (ui : List (String × List Nat)) (S : Option (List String)) (auto : Bool) :
     List (Option (List (String × Sel))) → List (String × Slot) → List Json
   | [], _ => []
   | p :: ps, old =>
-    match runPart fs inputs ui p old with
+    match runPartSub fs inputs ui S auto p old with
     | .error e => [putMErr e]
-    | .ok r => putPart r :: runPiecesObs fs inputs ui ps r.store
+    | .ok r => putPart r :: runPiecesObs fs inputs ui S auto ps r.store
 
 def putLearner (l : Learner) : Json := jArr [jStr l.func, jOpt (jList jNat) l.seq]
 
@@ -68,7 +71,9 @@ def handle (m : String) (a : Json) : R Json := do
     let inputs ← getKw (← fld a "inputs")
     let internal := (← optF (asList (asPair asStr (asList asNat))) a "internal").getD []
     let parts ← listF getFixed a "parts"
-    return jArr (runPiecesObs fs inputs internal parts [])
+    let S ← optF (asList asStr) a "output_names"
+    let auto := (← optF asBool a "auto").getD false
+    return jArr (runPiecesObs fs inputs internal S auto parts [])
   | "learners.make" =>
     let fs ← listF getMFunc a "funcs"
     let inputs ← getKw (← fld a "inputs")
@@ -89,6 +94,25 @@ def handle (m : String) (a : Json) : R Json := do
       match execSteps fs shapes masks inputs steps (initStore fs shapes masks) with
       | .error e => return putMErr e
       | .ok (store, calls) => return jObj ([("calls", jList (jList putCall) calls)] ++ putStore store)
+  | "flow.wf" =>
+    -- the static hypotheses of `C06_pieces_flow` for each of the given `fixed_indices` dictionaries: `flowWF` on the shapes and
+    -- masks of the full run of the (narrowed) pipeline, unique output names, and whether `_validate_fixed_indices` accepts it
+    let fs ← listF getMFunc a "funcs"
+    let inputs ← getKw (← fld a "inputs")
+    let internal := (← optF (asList (asPair asStr (asList asNat))) a "internal").getD []
+    let fixed ← listF (asList (asPair asStr getSel)) a "fixed"
+    let S ← optF (asList asStr) a "output_names"
+    let auto := (← optF asBool a "auto").getD false
+    match Sub.prepare fs inputs S auto with
+    | .error e => return putMErr (subErr e)
+    | .ok sub =>
+      match runPart sub inputs internal none [] with
+      | .error e => return putMErr e
+      | .ok rF =>
+        let accepted (fx : List (String × Sel)) : Bool := match validateFixed sub inputs (some fx) with | .ok _ => true | .error _ => false
+        return jObj [("wf", jList jBool (fixed.map fun fx => flowWF sub rF.res.shapes rF.res.masks inputs fx)),
+                     ("accepted", jList jBool (fixed.map accepted)),
+                     ("nodup", jBool (decide (akeys rF.store).Nodup))]
   | "sel.indices" =>
     let d ← natF a "d"
     let s ← getSel (← fld a "sel")
